@@ -201,6 +201,7 @@ fn main() {
     w.hosts.ws.set_responder(responder());
     let mut sport: u16 = 36000;
     let mut evals = 0u64;
+    let mut stopped_early = false;
     let mut nontrivial: BTreeSet<String> = BTreeSet::new();
 
     if prop == "C14" {
@@ -526,7 +527,14 @@ fn main() {
             let c = &doc["case"];
             cases.retain(|x| json!(x.0) == c["method"] && json!(x.1) == c["target"] && json!(x.3) == c["length"] && json!(x.4) == c["chunked"] && (c["small_content_length_in_front"].is_null() || json!(x.5) == c["small_content_length_in_front"]));
         }
+        let c15_start = std::time::Instant::now();
         for (m, t, limit, len, chunked, lying) in cases {
+            // a subject that violates the property may answer only after the client's read time-out (120 s per case): once
+            // something has been found and two minutes are spent, report that instead of running into the driver's limit
+            if res.n_violations() > 0 && c15_start.elapsed() > Duration::from_secs(120) {
+                stopped_early = true;
+                break;
+            }
             sport = if sport >= 39000 { 36000 } else { sport + 1 };
             let body = pattern(len, 3);
             let want_sha = sha::sha256(&body);
@@ -590,6 +598,9 @@ fn main() {
                 ("POST", "/machine/?comp=telemetrydata", high, 2 * low, true),
             ];
             for a in &kinds {
+                if stopped_early {
+                    break;
+                }
                 for b in &kinds {
                     sport = if sport >= 39000 { 36000 } else { sport + 1 };
                     let mut c = w.connect(Some(sport), Some(&rec)).unwrap();
@@ -632,6 +643,9 @@ fn main() {
     }
     res.cov("evaluations", evals);
     res.cov("distinct_nontrivial", nontrivial.len() as u64);
-    res.cov("exhaustive", true);
+    res.cov("exhaustive", !stopped_early);
+    if stopped_early {
+        res.cov("stopped_early_after_violations", true);
+    }
     std::process::exit(res.finish());
 }
